@@ -20,6 +20,10 @@ pub mod c17;
 pub mod c18;
 pub mod c19;
 pub mod c20;
+pub mod c21;
+pub mod c22;
+pub mod c23;
+pub mod c27;
 pub mod c30;
 pub mod c31;
 pub mod c32;
@@ -60,6 +64,10 @@ pub const REGISTRY: &[(&str, RunFn)] = &[
     ("C18", c18::run),
     ("C19", c19::run),
     ("C20", c20::run),
+    ("C21", c21::run),
+    ("C22", c22::run),
+    ("C23", c23::run),
+    ("C27", c27::run),
     ("C30", c30::run),
     ("C31", c31::run),
     ("C32", c32::run),
